@@ -65,7 +65,7 @@ def _enum_worker(job):
     un-simplified and simplified evaluations at two argument points; returns counters and candidate mismatches"""
     import random
     from . import enumexpr
-    seed, caps, dtype = job
+    seed, caps, dtype, part = job
     caps, relcap = caps[:-1], caps[-1]
     rng = random.Random(seed)
     E = enumexpr.Enum(rng, dtype=dtype)
@@ -78,6 +78,7 @@ def _enum_worker(job):
         allpools = E.levels(len(caps), max(caps))
         allpools = [allpools[0]] + [p[:cap] for p, cap in zip(allpools[1:], caps)]
     allpools.append(E.related([e for p_ in allpools[1:3] for e in p_], relcap))
+    core = E.core(); allpools.append(core[part[0]::part[1]])   # this worker's slice of the deterministic algebraic core
     for level, pool in enumerate(allpools[1:], 1):
         for e in pool:
             kind, s = simplify(e, 8)
@@ -105,7 +106,14 @@ def enum_stream(c, nworkers, caps):
     """(M) systematic small-tree stream, pure real-code differential in parallel worker processes; every candidate is
     confirmed against the Lean specification value of the un-simplified tree before it is reported"""
     import multiprocessing
-    jobs = [((c.seed * 1000003 + w) & 0x7fffffff, caps, float if w % 4 else int) for w in range(nworkers)]
+    # the deterministic core depends on the leaves (dtype and sample values come from the job seed): float workers share one
+    # core seed so that their slices partition the same list
+    nf = sum(1 for w in range(nworkers) if w % 4)
+    jobs = []
+    for w in range(nworkers):
+        isf = bool(w % 4)
+        idx = sum(1 for v in range(w) if bool(v % 4) == isf)
+        jobs.append(((c.seed * 1000003 + w) & 0x7fffffff, caps, float if isf else int, (idx, nf if isf else nworkers - nf)))
     ctx = multiprocessing.get_context('fork')
     with ctx.Pool(min(nworkers, 14)) as pool:
         results = pool.map(_enum_worker, jobs, chunksize=1)
